@@ -65,6 +65,11 @@ func NewGzipResponseWriter(w http.ResponseWriter, contentTypes *regexp.Regexp) *
 }
 
 func (grw *GzipResponseWriter) WriteHeader(code int) {
+	if code >= 100 && code <= 199 {
+		// informational response: the headers of the final response are still to come
+		grw.ResponseWriter.WriteHeader(code)
+		return
+	}
 	if grw.writer == nil {
 		if bodyAllowedForStatus(code) && isCompressable(grw.Header(), grw.contentTypes) {
 			grw.Header().Del(headerContentLength)
